@@ -3,8 +3,8 @@ from lib.verif import *
 
 THEOREMS = [
     "C18_cap", "C18_monotone", "C18_reaches_ceiling", "C18_floor",
-    "C18_budget", "C18_published_trace_ok", "C18_start_above_end_refuted",
-    "C18_float_scalings_monotone", "C18_topup",
+    "C18_budget", "C18_published_trace_ok", "C18_start_clamped",
+    "C18_estimated_start_clamped", "C18_float_scalings_monotone", "C18_topup",
 ]
 MODULE = "LV.Sweep.Props"
 TARGETS = ["theories/Sweep/Props.vo", "theories/Sweep/Exec.vo", "theories/Sweep/Examples.vo"]
@@ -12,7 +12,6 @@ WARM = [{"pkg": "sweep", "files": ["sweep/verif_fee_test.go"]}]
 IMPORTS = ("From Coq Require Import List ZArith.\nImport ListNotations.\n"
            "From LV Require Import Sweep.Model Sweep.Exec.\n")
 
-FINDING_SIG = "fee-function start>end"
 
 
 # ---------------------------------------------------------------- Coq terms
@@ -108,22 +107,19 @@ def go_mulf64_1000_over(a, w):
 
 
 def pred_ff(c):
-    """Returns (fails, finding_kind).  Evaluated on the implementation's
-    observations only."""
+    """Returns the list of failures.  Evaluated on the implementation's
+    observations only.  Since lnd commit 1567bc7 (start capped at the ceiling)
+    there is no excused input class: any rate above the ceiling and any
+    decrease is a violation, whatever start was supplied."""
     fails = []
     i = c["init"]
     if i["err"] != 0:
-        return fails, None
+        return fails
     maxr, start = c["maxr"], i["rate"]
-    finding = None
     if start > maxr:
-        if c["start"] is not None and c["conf"] > 1:
-            finding = "supplied StartingFeeRate above ceiling"
-        elif c["start"] is None and c["conf"] >= 1008:
-            finding = "relay fee above ceiling at conf target >= 1008"
-        elif c["start"] is None and maxr == 0:
-            finding = "estimator answer unclamped when ceiling is 0"
         fails.append("initial rate %d above ceiling %d" % (start, maxr))
+    if c["start"] is not None and c["conf"] > 1 and start != min(c["start"], maxr):
+        fails.append("supplied start %d, ceiling %d, but initial rate %d" % (c["start"], maxr, start))
     # floor: estimator path, floor applies when floor <= ceiling
     if c["start"] is None and c["conf"] > 1 and c["relay"] <= maxr and start < c["relay"]:
         fails.append("start %d below relay floor %d" % (start, c["relay"]))
@@ -145,7 +141,7 @@ def pred_ff(c):
         prev = rate
     if c["conf"] <= 1 and start != maxr:
         fails.append("conf target <= 1 but starts at %d != ceiling %d" % (start, maxr))
-    return fails, finding
+    return fails
 
 
 def pred_rate(c):
@@ -224,17 +220,12 @@ def pred_set(c):
 
 
 def pred_pub(c):
-    """Returns (fails, finding_kind)."""
+    """Returns the list of failures (no excused input class, see pred_ff)."""
     fails = []
-    finding = None
     budget, maxrate = c["budget"], c["maxrate"]
     ceiling = min(go_mulf64_1000_over(budget, c["weight"]), maxrate)
     start_sup = c["start"]
     conf0 = max(0, c["deadline"] - c["h0"])
-    if start_sup is not None and start_sup > ceiling and conf0 > 1:
-        finding = "supplied StartingFeeRate above ceiling"
-    elif start_sup is None and conf0 >= 1008 and c["relay"] > ceiling:
-        finding = "relay fee above ceiling at conf target >= 1008"
     prev_rate = None
     for k, e in enumerate(c["events"]):
         for t in (e["published"] or []):
@@ -261,7 +252,7 @@ def pred_pub(c):
             if k == 0 and start_sup is None and c["relay"] <= ceiling and conf0 > 1 \
                     and e["rate"] < c["relay"]:
                 fails.append("initial rate %d below relay floor %d" % (e["rate"], c["relay"]))
-    return fails, finding
+    return fails
 
 
 def run(ctx):
@@ -293,15 +284,12 @@ def run(ctx):
 
     # ---- property predicate on the implementation's own trace ----
     nviol = 0
-    nfinding = 0
     pred_fail_idx = set()
-    seen_findings = set()
     for idx, c in enumerate(rows):
         k = c["kind"]
-        finding = None
         if k == "ff":
-            fails, finding = pred_ff(c)
-            thm = "C18_monotone/C18_cap/C18_reaches_ceiling/C18_floor"
+            fails = pred_ff(c)
+            thm = "C18_monotone/C18_cap/C18_reaches_ceiling/C18_floor/C18_start_clamped"
         elif k == "rate":
             fails = pred_rate(c)
             thm = "C18_monotone/C18_cap"
@@ -309,7 +297,7 @@ def run(ctx):
             fails = pred_tx(c)
             thm = "C18_budget"
         elif k == "pub":
-            fails, finding = pred_pub(c)
+            fails = pred_pub(c)
             thm = "C18_published_trace_ok"
         elif k == "set":
             fails = pred_set(c)
@@ -319,20 +307,10 @@ def run(ctx):
         if not fails:
             continue
         pred_fail_idx.add(idx)
-        if finding:
-            nfinding += 1
-            fkey = (finding, k)
-            if fkey in seen_findings:
-                continue
-            seen_findings.add(fkey)
-            ctx.violation("impl_violates_predicate", "C18_start_above_end_refuted",
-                          {"case": c, "fails": fails[:8], "class": finding},
-                          signature="%s (%s) kind=%s" % (FINDING_SIG, finding, k))
-        else:
-            nviol += 1
-            if nviol <= 4:
-                ctx.violation("impl_violates_predicate", thm, {"case": c, "fails": fails[:8]},
-                              signature="sweep kind=%s %s" % (k, fails[0]))
+        nviol += 1
+        if nviol <= 4:
+            ctx.violation("impl_violates_predicate", thm, {"case": c, "fails": fails[:8]},
+                          signature="sweep kind=%s %s" % (k, fails[0]))
 
     # ---- correspondence ----
     terms = [case_term(c) for c in rows]
@@ -364,8 +342,13 @@ def run(ctx):
         return ("<=1" if cf <= 1 else "2" if cf == 2 else "3-20" if cf <= 20 else
                 "21-1007" if cf < 1008 else "1008+" if cf < 2 ** 31 else ">=2^31")
     nobs = 0
+    nabove = 0
     for c in rows:
         bump(kinds, c["kind"])
+        if c["kind"] == "ff" and c["start"] is not None and c["start"] > c["maxr"] and c["conf"] > 1:
+            nabove += 1
+        if c["kind"] == "pub" and c.get("finding_gen"):
+            nabove += 1
         if c["kind"] == "ff":
             bump(ff_init, "err%d" % c["init"]["err"])
             bump(conf_hist, conf_class(c["conf"]))
@@ -404,7 +387,7 @@ def run(ctx):
         "case_kinds": kinds, "ff_init": ff_init, "ff_ops": ops, "ff_conf_classes": conf_hist,
         "tx_results": txerr, "publisher_events": pubev, "input_set_topups": sets,
         "predicate_failures": len(pred_fail_idx),
-        "finding_class_cases": nfinding,
+        "start_above_ceiling_regression_cases": nabove,
         "correspondence_mismatches": len(bad),
         "samples": [rows[0]],
     })
